@@ -1,11 +1,13 @@
 """C15 Fixing a time window."""
 import copy
+import os
 import random
 import numpy as np
 import pandas as pd
 from .. import gen, pf, impl, scen
 from ..lean import fs
 from ..impl import Quiet
+from ..comp import c15coarse
 
 ID = 'C15'
 THEOREMS = [
@@ -144,6 +146,14 @@ def plain_window_arg(fx, T):
 
 
 def scenarios(seed, tier):
+    # development switch: C15_STREAMS=gen,idx,cw restricts the streams (the registered command runs all of them)
+    only = [x for x in os.environ.get('C15_STREAMS', '').split(',') if x]
+    for cid, s in _scenarios(seed, tier):
+        if not only or any(cid.startswith(o) for o in only):
+            yield cid, s
+
+
+def _scenarios(seed, tier):
     n = 500 if tier == 'quick' else 3000
     rnd = random.Random(seed * 7919 + 15)
     for i in range(n):
@@ -181,6 +191,25 @@ def scenarios(seed, tier):
         s['fix'] = {'mode': 'index', 'mask': None, 'k': 0, 'idx': idx, 'shape': shape, 'form': form}
         s['prices2'] = {key: [gen.q8(r2, -4, 20) if key.startswith('p') else v for v in vals] for key, vals in s['prices'].items()}
         yield 'idx%d' % i, s
+    # third stream: assets with an own coarser frequency AND internal variables, windows that cut through their coarse steps, previous
+    # solutions that differ in internal variables only (harness/comp/c15coarse.py)
+    for cid, s in c15coarse.scenarios_cw(seed, tier):
+        yield cid, s
+
+
+def split_aligned(tg, interval, cells):
+    """do the intervals of the split set-up begin only where coarse steps of the assets begin (or outside of them)?"""
+    try:
+        iv = pd.Timedelta(interval)
+    except Exception:
+        iv = pd.Timedelta(1, interval)
+    p0 = tg.timepoints[0]
+    for t in range(1, tg.T):
+        if (tg.timepoints[t] - p0) // iv != (tg.timepoints[t - 1] - p0) // iv:
+            for key in cells.values():
+                if key[t] >= 0 and key[t - 1] == key[t]:
+                    return False
+    return True
 
 
 def run_case(scn, drv):
@@ -320,7 +349,21 @@ def run_case(scn, drv):
             # not fit it: known finding F-19b): not about the dictionary
             feats.append('rolling-skip:' + impl.err_class(e))
     m = op_fix.mapping
-    fixed_vars = sorted(set(int(i) for i in m.index[m['time_step'].isin(steps)]))
+    # which variables belong to a step of the window: those labelled with such a step in the mapping and - variables of an asset with an own
+    # coarser frequency, dispatch and internal ones alike - those whose COARSE step contains such a step (coarse steps computed from the
+    # scenario, not from the mapping: comp/c15coarse.py)
+    try:
+        cells = c15coarse.cells_of(scn)
+    except Exception as e:
+        cells = {}
+        feats.append('cells-error:' + impl.err_class(e))
+    fv, fr = c15coarse.belonging(m, steps, cells)
+    fixed_vars, fixed_rows = sorted(fv), sorted(fr)
+    if cells:
+        feats.append('asset-with-coarser-frequency')
+        feats.extend(c15coarse.cut_info(m, steps, cells))
+        if fixed_vars != fixed_rows:
+            feats.append('variable-of-a-coarse-step-in-the-window-not-labelled-with-a-step-of-the-window')
     if m.index.duplicated().any():
         # a variable with rows in several steps (asset with a coarser frequency, periodic asset) that the window reaches only in a later row
         m1 = m[~m.index.duplicated(keep='first')]
@@ -336,12 +379,24 @@ def run_case(scn, drv):
         d = pf.cmp_vec('fix.' + nm, want, [fs(v) for v in got], 0)
         if d:
             r['disagreements'].append({'component': 'fix', 'detail': d})
-    if sorted(set(mod['fixed'])) != fixed_vars:
+    if sorted(set(mod['fixed'])) != fixed_rows:
         r['disagreements'].append({'component': 'fix', 'detail': 'fixed variable sets differ'})
     # oracle: bounds
+    m_first = m[~m.index.duplicated(keep='first')]
+
+    def describe(j):
+        try:
+            row = m_first.loc[j]
+            ts = sorted(int(t) for t in np.atleast_1d(m.loc[[j], 'time_step'].values))
+            return '%s variable %r of asset %r, labelled with steps %s' % ({'d': 'dispatch', 'i': 'internal'}.get(row['type'], row['type']), row.get('var_name'), row['asset'], ts[:8])
+        except Exception:
+            return 'variable'
     for j in fixed_vars:
         if not (op_fix.l[j] == x0[j] and op_fix.u[j] == x0[j]):
-            viol('variable %d belongs to a step in the fixed window but has bounds [%s, %s], previous value %s' % (j, op_fix.l[j], op_fix.u[j], x0[j]), what='not_pinned')
+            coarse = j not in fr
+            viol('variable %d (%s%s) belongs to a step in the fixed window (steps %s) but has bounds [%s, %s], previous value %s' % (
+                j, describe(j), '; its coarse step covers a step of the window' if coarse else '', steps[:12], op_fix.l[j], op_fix.u[j], x0[j]),
+                what='not_pinned', coarse_step=coarse, var_type=str(m_first.loc[j, 'type']) if j in m_first.index else None)
             break
     for j in free_vars:
         if not (op_fix.l[j] == op_free.l[j] and op_fix.u[j] == op_free.u[j]):
@@ -395,12 +450,63 @@ def run_case(scn, drv):
                 viol('with unchanged prices the optimal value changed from %.8g to %.8g' % (v0, res3.value), what='value_changed')
     except Exception as e:
         viol('set-up with fix_time_window and old prices raised %s' % type(e).__name__, what='raises', err=impl.err_class(e))
+    # (3b) previous solutions that differ from the solver's one only in internal (boolean) variables - every optimal previous solution is
+    #      pinned and kept on the window, whatever its values of the internal variables
+    if scn.get('ties') and not mip_noise and pf.is_mip(op_fix):
+        try:
+            variants = c15coarse.tie_variants(rec['op'], x0, random.Random(7 * len(x0) + len(steps)), prefer=fixed_vars)
+        except Exception as e:
+            variants = []
+            feats.append('ties-error:' + impl.err_class(e))
+        v0 = float(rec['res'].value)
+        for xp, flipped in variants:
+            feats.append('previous-solution-differing-in-internal-variables-only')
+            if set(flipped) & set(fixed_vars):
+                feats.append('previous-solution-differing-in-internal-variables-of-the-window')
+            try:
+                with Quiet():
+                    op_t = portf.setup_optim_problem(prices2, tg, fix_time_window={'I': copy.deepcopy(I_arg), 'x': xp.copy()})
+                    op_to = portf.setup_optim_problem(rec['prices'], tg, fix_time_window={'I': copy.deepcopy(I_arg), 'x': xp.copy()})
+            except Exception as e:
+                viol('set-up with fix_time_window raised %s for a previous solution that differs from the solver\'s one in internal variables %s only' % (
+                    type(e).__name__, flipped[:6]), what='raises', err=impl.err_class(e), tie=True)
+                break
+            r['evaluated'] += 1
+            bad = [j for j in fixed_vars if not (op_t.l[j] == xp[j] and op_t.u[j] == xp[j])]
+            if bad:
+                j = bad[0]
+                viol('previous solution with internal variables %s flipped (feasible, same value): variable %d (%s) belongs to a step in the fixed window (steps %s) but has bounds [%s, %s], previous value %s' % (
+                    flipped[:6], j, describe(j), steps[:12], op_t.l[j], op_t.u[j], xp[j]), what='not_pinned', tie=True, coarse_step=j not in fr)
+            bad = [j for j in free_vars if not (op_t.l[j] == op_free.l[j] and op_t.u[j] == op_free.u[j])]
+            if bad:
+                viol('previous solution with internal variables %s flipped: variable %d has no step in the fixed window but its bounds changed' % (flipped[:6], bad[0]), what='free_changed', tie=True)
+                break
+            rt = impl.solve(op_t)
+            if isinstance(rt, str):
+                viol('re-optimisation with the window fixed to a previous solution that differs in internal variables %s only (feasible, same value) was not successful (%s)' % (
+                    flipped[:6], rt), what='refix_infeasible', tie=True)
+                break
+            if fixed_vars:
+                dv = np.abs(np.asarray(rt.x)[fixed_vars] - xp[fixed_vars])
+                if float(dv.max()) > 1e-5 * max(1.0, float(np.abs(xp).max())):
+                    j = fixed_vars[int(np.argmax(dv))]
+                    viol('previous solution with internal variables %s flipped (feasible, same value): variable %d (%s) of the fixed window (steps %s) moved from %s to %s in the new solution; its bounds are [%s, %s]' % (
+                        flipped[:6], j, describe(j), steps[:12], xp[j], rt.x[j], op_t.l[j], op_t.u[j]), what='moved', tie=True, coarse_step=j not in fr)
+                    break
+            rto = impl.solve(op_to)
+            if isinstance(rto, str):
+                viol('with unchanged prices the problem fixed to a previous solution that differs in internal variables %s only was not successful (%s)' % (flipped[:6], rto), what='old_infeasible', tie=True)
+                break
+            if abs(rto.value - v0) > 1e-5 * max(1.0, abs(v0)):
+                viol('with unchanged prices and the window fixed to a previous solution that differs in internal variables %s only the optimal value changed from %.8g to %.8g' % (
+                    flipped[:6], v0, rto.value), what='value_changed', tie=True)
+                break
     # (4) split set-up with a window (date, index mask or time step indices over the whole horizon, reaching into any interval): exactly
     #     the variables with a step in the window are pinned to the previous (split) solution, everything else stays free
     if tg.T >= 4 and (fx['mode'] in ('date', 'index') or len(scn['assets']) % 2 == 0):
         rs0 = None
         try:
-            interval = pf.split_interval(scn, tg, parts=2 if len(op_fix.c) % 2 else 3)
+            interval = scn.get('split_interval') or pf.split_interval(scn, tg, parts=2 if len(op_fix.c) % 2 else 3)
             rs0 = pf.setup_split(scn, interval)
             pf.solve_rec(rs0)
         except Exception as e:
@@ -449,7 +555,14 @@ def run_case(scn, drv):
                 if len(op_sf.c) != len(op_s0.c) or len(op_sf.ops) != len(op_s0.ops):
                     viol('split set-up with a fixed window has %d variables, without %d' % (len(op_sf.c), len(op_s0.c)), what='split_fix_sizes')
                 else:
-                    pinned = set(int(i) for i in ms.index[ms['time_step'].isin(list(wsteps))])
+                    # variables of coarse steps: as in the unsplit set-up, if every interval begins where coarse steps begin (else the
+                    # coarse steps of an interval are not those of the whole horizon: steps as labelled)
+                    s_cells = cells if (cells and split_aligned(tg, interval, cells)) else {}
+                    if cells:
+                        feats.append('split-fix:coarse-steps-%s' % ('aligned' if s_cells else 'cut-by-intervals'))
+                    pinned, pinned_rows = c15coarse.belonging(ms, wsteps, s_cells)
+                    if pinned != pinned_rows:
+                        feats.append('split-fix:variable-of-a-coarse-step-in-the-window-not-labelled-with-a-step-of-the-window')
                     lf, uf = np.concatenate([o.l for o in op_sf.ops]), np.concatenate([o.u for o in op_sf.ops])
                     l0, u0 = np.concatenate([o.l for o in op_s0.ops]), np.concatenate([o.u for o in op_s0.ops])
                     for v in range(len(op_sf.c)):
